@@ -91,6 +91,7 @@ func c07(r *Run) {
 	returned := map[string]int{} // marker -> how many calls returned it
 	span := time.Duration(ch.Range(1, 6, "span.s")) * time.Second
 
+	queriesSent := map[string]int{} // src|t of inbound queries that reuse a pending t -> count
 	floodMarker := r.RandID()
 	floodSeen := 0
 	var send func(c *c07call, kind int)
@@ -282,8 +283,12 @@ func c07(r *Run) {
 		case 9:
 			t = "" // right address, no `t` key at all
 			desc = "absent-t"
+		case 10:
+			// the queried node sends a *query* of its own that happens to carry the same t
+			// (ids are short counters on both sides): not a reply, must not complete anything
+			desc = "query-with-same-t"
 		}
-		if kind >= 2 && kind != 7 && r.Rng.Intn(3) == 0 {
+		if kind >= 2 && kind != 7 && kind != 10 && r.Rng.Intn(3) == 0 {
 			// the foreign datagram is an error message rather than a response
 			isErr = true
 			marker = fmt.Sprintf("err-marker-%d", mseq)
@@ -301,6 +306,16 @@ func c07(r *Run) {
 		if kind == 9 {
 			d, _ := benc.DecodeDict(b)
 			b = benc.Encode(d.Del("t"))
+		}
+		if kind == 10 {
+			marker = fmt.Sprintf("qry-marker-%d", mseq)
+			b = Query("ping", t, benc.Dict{{K: "id", V: string(mid[:])}})
+			r.Logf("send %s for call %d src=%s t=%s", desc, c.idx, src, r.TShow(c.dest.String(), t))
+			r.Probe("dg-" + desc)
+			// it is not recorded as a delivered reply: a call that returns because of it is wrong
+			queriesSent[src.String()+"|"+t]++
+			conn.Inject(src, b)
+			return
 		}
 		dg := c07dg{marker: marker, src: src.String(), t: t, at: time.Now(), isErr: isErr}
 		r.Logf("send %s for call %d src=%s t=%s", desc, c.idx, src, r.TShow(c.dest.String(), t))
@@ -371,7 +386,7 @@ func c07(r *Run) {
 	ndg := ch.Range(0, 60, "dgs")
 	for i := 0; i < ndg; i++ {
 		at := time.Duration(r.Rng.Int63n(int64(span + 4*delay)))
-		kind := ch.Pick([]int{5, 2, 3, 3, 3, 2, 2, 2, 2, 1}, "dg.kind")
+		kind := ch.Pick([]int{5, 2, 3, 3, 3, 2, 2, 2, 2, 1, 2}, "dg.kind")
 		r.After(at, "dg", func() {
 			var cands []*c07call
 			for _, c := range calls {
@@ -408,6 +423,10 @@ func c07(r *Run) {
 				got = res.Reply.E.Msg
 			}
 			r.Logf("call %d returned marker=%q err=%v at +%v", c.idx, got, res.Err, c.call.End.Sub(c.call.Start))
+			if res.Err == nil && res.Reply.Y != "r" && res.Reply.Y != "e" {
+				r.Violate("query-completed-by-foreign-datagram", "call %d (dest %s, t=%x) returned a message of type %q as its reply (queries with that t sent from that address: %d)", c.idx, c.dest, c.t, res.Reply.Y, queriesSent[c.dest.String()+"|"+c.t])
+				return
+			}
 			if got != "" {
 				returned[got]++
 				if returned[got] > 1 {
